@@ -56,11 +56,14 @@ pub struct IoSpec {
     /// Benign: forward jumps of the monotonic clock (seed).
     #[serde(default)]
     pub clock_jumps: Option<u64>,
+    /// Disruptive: the stop event happens when this many input bytes were delivered (pipe).
+    #[serde(default)]
+    pub stop_at_input_byte: Option<u64>,
 }
 
 impl IoSpec {
     pub fn is_benign(&self) -> bool {
-        self.eio_at.is_none() && self.eof_at.is_none() && self.stdout_fail_at.is_none()
+        self.eio_at.is_none() && self.eof_at.is_none() && self.stdout_fail_at.is_none() && self.stop_at_input_byte.is_none()
     }
     pub fn any(&self) -> bool {
         *self != IoSpec::default()
@@ -85,6 +88,9 @@ pub struct ExecSpec {
     pub sched_seed: u64,
     pub cap_limit: Option<usize>,
     pub step_budget: u64,
+    /// Step budget counted from the injected stop event (None: only `step_budget` applies).
+    #[serde(default)]
+    pub budget_after_stop: Option<u64>,
     pub expected_steps: u64,
     pub stop_at_step: Option<u64>,
     pub decisions: Vec<u16>,
@@ -117,6 +123,7 @@ impl ExecSpec {
             sched_seed: 0,
             cap_limit: None,
             step_budget: 2_000_000,
+            budget_after_stop: None,
             expected_steps: 2000,
             stop_at_step: None,
             decisions: Vec::new(),
@@ -170,6 +177,8 @@ pub struct OutcomeRec {
     pub arrival_msgs: u64,
     pub max_runnable: usize,
     pub aborted: bool,
+    #[serde(default)]
+    pub backlog_at_stop: Option<(u64, u64)>,
 }
 
 impl From<Outcome> for OutcomeRec {
@@ -196,6 +205,7 @@ impl From<Outcome> for OutcomeRec {
             arrival_msgs: o.arrival_msgs,
             max_runnable: o.max_runnable,
             aborted: o.aborted,
+            backlog_at_stop: o.backlog_at_stop,
         }
     }
 }
@@ -545,6 +555,7 @@ pub fn run_config(spec: &ExecSpec) -> RunConfig {
         seed: spec.sched_seed,
         cap_limit: spec.cap_limit,
         step_budget: spec.step_budget,
+        budget_after_stop: spec.budget_after_stop,
         expected_steps: spec.expected_steps,
         stop_at_step: spec.stop_at_step,
         replay: spec.decisions.clone(),
@@ -565,5 +576,6 @@ pub fn io_plan(spec: &ExecSpec, input_id: Option<(u64, u64)>) -> IoPlan {
         stdout_short_writes: spec.io.stdout_short_writes,
         stdout_eintr_every: spec.io.stdout_eintr_every,
         clock_jumps: spec.io.clock_jumps,
+        stop_at_input_byte: spec.io.stop_at_input_byte,
     }
 }
